@@ -225,6 +225,11 @@ def job_interface(lower, upper, inc_l, inc_u):
         def rp(md, name=name):
             return True, 'interface %s: %s violated (transliterated current interfaces.pyx / reversed.pyx, glue from solver.pyx)' % (tag, name)
         results.append(discharge(Obligation('interface %s: %s' % (tag, name), eq_goal(a, b), pos, replay=rp, key='interface:%s:%s' % (tag, name.split(' ')[0]))))
+    unwritten = [(j, k_) for j in range(nu) for k_ in range(2 * nu) if upv[j * MAXY + k_] is None]
+    results.append(discharge(Obligation('interface %s: every entry of the %d starting vectors of the upper layer (%d values each) is written' % (tag, nu, 2 * nu), z3.BoolVal(not unwritten), [],
+                                        with_axioms=False, with_dens=False, replay=lambda md: (True, 'cf_solve_upper_y_at_interface (transliterated current source) leaves (solution, entry) %s of the upper-layer '
+                                                                                               'starting vectors unwritten: the integrator would start from uninitialised memory' % unwritten[:6]),
+                                        key='interface:unwritten:%s' % tag)))
     results.append(discharge(Obligation('interface %s: accesses stay inside declared extents' % tag, z3.BoolVal(not viol), [], with_axioms=False, with_dens=False,
                                         replay=lambda md: (True, 'out-of-extent: %s' % viol[:3]), key='interface:extent:%s' % tag)))
     results.append(reach_twin('interface ' + tag, pos))
